@@ -71,11 +71,136 @@ fn class(src_off: usize, dst_pos: usize, len: usize) -> String {
 }
 
 pub fn run(ctx: &mut RunCtx<'_>) -> Option<Violation> {
-    let kind = ctx.ch.draw(0, 10);
+    let kind = ctx.ch.draw(0, 41);
     match kind {
-        0..=4 => run_bitbuffer(ctx),
-        5..=7 => run_slice_write(ctx),
-        _ => run_readers(ctx),
+        0..=19 => run_bitbuffer(ctx),
+        20..=31 => run_slice_write(ctx),
+        32..=39 => run_readers(ctx),
+        _ => run_extremes(ctx),
+    }
+}
+
+/// Offsets and lengths near `usize::MAX` (a length taken from the wire, `usize::MAX` as "no limit"): the
+/// request can never fit, so every store must answer `Err` - not overflow in its bounds arithmetic, not
+/// index out of bounds, not succeed. And a `with_max_read` window that is wider than what has been written
+/// must not let a read get past the written bits.
+fn run_extremes(ctx: &mut RunCtx<'_>) -> Option<Violation> {
+    const X: &[usize] = &[usize::MAX, usize::MAX - 1, usize::MAX - 7, usize::MAX - 8, usize::MAX / 2, usize::MAX / 2 + 1, usize::MAX / 8, usize::MAX / 8 + 1, 1 << 32];
+    let mut l = Lane::new(ctx.ch, 1);
+    let src = draw_bytes(&mut l, 16);
+    let dn = l.draw(17) as usize;
+    let prefix = draw_bytes(&mut l, 8);
+    let prefix_bits = if prefix.is_empty() { 0 } else { l.draw(prefix.len() as u64 * 8 + 1) as usize };
+    let big = X[l.draw(X.len() as u64) as usize];
+    let small = l.draw(40) as usize;
+    let (off, len) = match l.draw(3) {
+        0 => (big, small),
+        1 => (small, big),
+        _ => (big, X[l.draw(X.len() as u64) as usize]),
+    };
+    let store = l.draw(5);
+    let op = l.draw(3);
+    let opname = ["with_offset", "with_len", "with_offset_len"][op as usize];
+    let storename = ["bitbuffer-write", "bitbuffer-read", "tuple-write", "tuple-read", "bitbuffer-with_max_read"][store as usize];
+    // with_offset only takes the offset, with_len only the length: make sure the one that is used is extreme
+    let (off, len) = match op {
+        0 => (off.max(1 << 32), len),
+        1 => (off, len.max(1 << 32)),
+        _ => (off, len),
+    };
+    ctx.log.ev("X", storename, (op << 8) ^ (off as u64).rotate_left(17) ^ len as u64, || format!("{opname} off={off} len={len} src {} bytes dst {dn} bytes cursor {prefix_bits}", src.len()));
+    ctx.counters.inc("probe.extreme_offset_or_length");
+    ctx.nontrivial = true;
+    let mut bb = BitBuffer::default();
+    if prefix_bits > 0 && bb.write_bits_with_len(&prefix, prefix_bits).is_err() {
+        return None;
+    }
+    let mut dst = vec![0xa5u8; dn];
+    let fail = |what: &str, detail: String| Viol::new(format!("C11/extreme-arguments/{storename}/{opname}/{what}"), detail);
+    match store {
+        0 => {
+            let r = guard(|| match op {
+                0 => bb.write_bits_with_offset(&src, off),
+                1 => bb.write_bits_with_len(&src, len),
+                _ => bb.write_bits_with_offset_len(&src, off, len),
+            });
+            match r {
+                Err(pi) => return fail("panic", format!("{opname}(src {} bytes, off {off}, len {len}) at write position {prefix_bits} panicked: {} ({})", src.len(), pi.message, pi.location)),
+                Ok(Ok(())) => return fail("ok", format!("{opname}(src {} bytes, off {off}, len {len}) returned Ok", src.len())),
+                Ok(Err(_)) => {}
+            }
+            if bb.bit_len() != prefix_bits {
+                return fail("cursor", format!("write cursor {} after the failed call, was {prefix_bits}", bb.bit_len()));
+            }
+            bb_invariant(&bb, "failed write with extreme arguments")
+        }
+        1 => {
+            let r = guard(|| match op {
+                0 => bb.read_bits_with_offset(&mut dst, off),
+                1 => bb.read_bits_with_len(&mut dst, len),
+                _ => bb.read_bits_with_offset_len(&mut dst, off, len),
+            });
+            match r {
+                Err(pi) => fail("panic", format!("{opname}(dst {dn} bytes, off {off}, len {len}) with {prefix_bits} bits written panicked: {} ({})", pi.message, pi.location)),
+                Ok(Ok(())) => fail("ok", format!("{opname}(dst {dn} bytes, off {off}, len {len}) with {prefix_bits} bits written returned Ok")),
+                Ok(Err(_)) => bb_invariant(&bb, "failed read with extreme arguments"),
+            }
+        }
+        2 => {
+            let mut store = prefix.clone();
+            let mut pos = prefix_bits;
+            let r = guard(|| {
+                let mut t = (&mut store[..], &mut pos);
+                match op {
+                    0 => t.write_bits_with_offset(&src, off),
+                    1 => t.write_bits_with_len(&src, len),
+                    _ => t.write_bits_with_offset_len(&src, off, len),
+                }
+            });
+            match r {
+                Err(pi) => fail("panic", format!("{opname}(src {} bytes, off {off}, len {len}) on a {} byte slice at {prefix_bits} panicked: {} ({})", src.len(), prefix.len(), pi.message, pi.location)),
+                Ok(Ok(())) => fail("ok", format!("{opname}(src {} bytes, off {off}, len {len}) on a {} byte slice returned Ok", src.len(), prefix.len())),
+                Ok(Err(_)) => None,
+            }
+        }
+        3 => {
+            let mut pos = prefix_bits;
+            let r = guard(|| {
+                let mut t = (&prefix[..], &mut pos);
+                match op {
+                    0 => t.read_bits_with_offset(&mut dst, off),
+                    1 => t.read_bits_with_len(&mut dst, len),
+                    _ => t.read_bits_with_offset_len(&mut dst, off, len),
+                }
+            });
+            match r {
+                Err(pi) => fail("panic", format!("{opname}(dst {dn} bytes, off {off}, len {len}) on a {} byte slice at {prefix_bits} panicked: {} ({})", prefix.len(), pi.message, pi.location)),
+                Ok(Ok(())) => fail("ok", format!("{opname}(dst {dn} bytes, off {off}, len {len}) on a {} byte slice returned Ok", prefix.len())),
+                Ok(Err(_)) => None,
+            }
+        }
+        _ => {
+            // a window wider than what is written (a limit of usize::MAX means "no limit")
+            let window = if l.draw(2) == 0 { big } else { prefix_bits + 1 + l.draw(70) as usize };
+            let want = l.draw(70) as usize;
+            // (the closure is `Fn`: it owns its destination)
+            let r = guard(|| {
+                bb.with_max_read(window, |b| {
+                    let mut d = vec![0u8; (want + 7) / 8];
+                    b.read_bits_with_len(&mut d, want)
+                })
+            });
+            match r {
+                Err(pi) => return fail("panic", format!("with_max_read({window}) with {prefix_bits} bits written panicked: {} ({})", pi.message, pi.location)),
+                Ok(Ok(())) if want > prefix_bits => return fail("ok", format!("with_max_read({window}, read {want} bits) returned Ok although only {prefix_bits} bits are written")),
+                Ok(Err(_)) if want <= prefix_bits => return fail("err", format!("with_max_read({window}, read {want} bits) failed although {prefix_bits} bits are written")),
+                _ => {}
+            }
+            if bb.bit_len() != prefix_bits {
+                return fail("cursor", format!("write position {} after with_max_read, was {prefix_bits}", bb.bit_len()));
+            }
+            None
+        }
     }
 }
 
@@ -559,9 +684,13 @@ fn run_slice_write(ctx: &mut RunCtx<'_>) -> Option<Violation> {
                     return Viol::new(format!("C11/unexpected-error/slice/{name}"), format!("{name} fits ({cls}; src {stotal} bits, dst room {}) but failed", total - before_pos));
                 }
                 ctx.counters.inc(if src_fits { "fault.DST-FULL.slice" } else { "fault.SRC-SHORT.slice" });
-                // content and cursor after a failed operation are not specified: re-synchronise
+                // a failed call is a call that did not happen for the cursor: the naive model does not move, and
+                // a store that does answers the REST of the sequence differently (e.g. a zero-length request at
+                // the end). The content after a failed operation is not specified: re-synchronise that.
+                if pos != before_pos {
+                    return Viol::new(format!("C11/cursor-moved-by-failed-call/slice/{name}"), format!("{name} ({cls}) at {before_pos} of {total} bits failed but the cursor is {pos} afterwards"));
+                }
                 model = to_bits(&dst);
-                pos = pos.min(total);
             }
         }
     }
@@ -727,12 +856,16 @@ fn run_readers(ctx: &mut RunCtx<'_>) -> Option<Violation> {
                     return Viol::new(format!("C11/unexpected-error/{store}/{name}"), format!("{name} fits ({cls}; {avail} available) but failed"));
                 }
                 ctx.counters.inc(&format!("fault.READ-SHORT.{store}"));
-                pos = match &rd {
+                // a failed read has read nothing: the cursor stays (see the writer side)
+                let real = match &rd {
                     Rd::Tuple(_, p) => *p,
                     Rd::Bits(b) => b.pos(),
                 };
+                if real != pos {
+                    return Viol::new(format!("C11/cursor-moved-by-failed-call/{store}/{name}"), format!("{name} ({cls}) at {pos} of {vis} bits failed but the cursor is {real} afterwards"));
+                }
                 if pos > vis {
-                    // cursor past the end after a failed read is unspecified; continue from a sane place
+                    // the cursor had been placed past the end on purpose; continue from a sane place
                     match &mut rd {
                         Rd::Tuple(_, p) => *p = vis,
                         Rd::Bits(b) => {
